@@ -182,6 +182,43 @@ def rule_rs_layout(rep: Report, fi: FuncInfo) -> None:
     rep.expect(ok, "CHECK-LAYOUT", fi, f"layout test: {unparse(ifs[0].test)[:140] if ifs else '?'}", "layout decided by comparing the index tensor with arange (a live test)", "layout test changed")
 
 
+def info_parity_sets_evaluated(gi: FuncInfo):
+    """get_information_and_parity_sets(k, n, information_set) evaluated: the information positions are the caller's, in the
+    caller's order ('left' = 0..k-1, 'right' = n-k..n-1), the parity positions the remaining ones in ascending order; a
+    list of the wrong length or with a position outside [0, n) is rejected."""
+    from ..constfold import PySeq, Unfoldable
+    from ..frag import FragRaise, FragReturn, run_fragment
+
+    funcs = {nm: f.node for nm, f in gi.module.functions.items() if nm != gi.name}
+    k, n = 3, 7
+    cases = [("left", list(range(k))), ("right", list(range(n - k, n))), (PySeq([0, 2, 5]), [0, 2, 5]), (PySeq([6, 1, 3]), [6, 1, 3]), ([5, 4, 0], [5, 4, 0])]
+    for info, want_i in cases:
+        try:
+            run_fragment(gi.body, dict(zip(gi.params, (k, n, info))), {}, max_steps=100000, materialise=True, funcs=funcs)
+            return None, "no value returned"
+        except FragReturn as ret:
+            got = ret.value
+        except (Unfoldable, FragRaise, TypeError, IndexError, ValueError) as exc:
+            return None, f"information_set={info!r}: {exc}"
+        if not (isinstance(got, list) and len(got) == 2 and all(isinstance(x, list) for x in got)):
+            return None, "result is not a pair of index lists"
+        gi_, gp_ = [int(x) for x in got[0]], [int(x) for x in got[1]]
+        want_p = [j for j in range(n) if j not in want_i]
+        if gi_ != want_i or gp_ != want_p:
+            return VIOLATION, f"information_set = {list(info) if not isinstance(info, str) else info!r} (k = {k}, n = {n}): information positions {gi_}, parity positions {gp_}; expected {want_i} and the ascending complement {want_p} (encoder, generator and check matrix lay their columns out by these two lists)"
+    for bad_info in (PySeq([0, 1]), PySeq([0, 1, 7]), PySeq([-1, 1, 2]), "middle"):
+        try:
+            run_fragment(gi.body, dict(zip(gi.params, (k, n, bad_info))), {}, max_steps=100000, materialise=True, funcs=funcs)
+            return VIOLATION, f"the inadmissible information set {list(bad_info) if not isinstance(bad_info, str) else bad_info!r} is not rejected"
+        except FragRaise:
+            continue
+        except FragReturn:
+            return VIOLATION, f"the inadmissible information set {list(bad_info) if not isinstance(bad_info, str) else bad_info!r} (k = {k}, n = {n}) is accepted"
+        except (Unfoldable, TypeError, IndexError, ValueError) as exc:
+            return None, f"information_set={bad_info!r}: {exc}"
+    return OK, f"caller's positions in the caller's order, ascending complement as parity set ({len(cases)} layouts); wrong length / out-of-range / unknown keyword rejected"
+
+
 def systematic_matrix_evaluated(fi: FuncInfo):
     """create_systematic_generator_matrix(P, information_set) evaluated (own arithmetic, module helpers inlined): column
     information_set[i] must be the i-th unit vector and the j-th smallest remaining position must hold column j of P - the
@@ -255,7 +292,14 @@ def rule_systematic_matrix(repo: Repo, rep: Report) -> int:
     okl = "torch.arange(k)" in vals.get("information_indices", []) and "torch.arange(k, n)" in vals.get("parity_indices", [])
     okr = "torch.arange(n - k, n)" in vals.get("information_indices", []) and "torch.arange(n - k)" in vals.get("parity_indices", [])
     okc = any(v.startswith("torch.tensor([i for i in all_indices if i not in information_indices]") for v in vals.get("parity_indices", []))
-    rep.expect(okl and okr and okc, "SYSTEMATIC", gi, "left: (0..k-1 | k..n-1); right: (n-k..n-1 | 0..n-k-1); list: parity = ascending complement", "information and parity sets partition the positions", "information / parity index sets are not complementary partitions", node=gi.node)
+    if not (okl and okr and okc):
+        est, edetail = info_parity_sets_evaluated(gi)
+        if est is None:
+            rep.undecided("SYSTEMATIC", gi, "left: (0..k-1 | k..n-1); right: (n-k..n-1 | 0..n-k-1); list: parity = ascending complement", f"code shape not recognised and not evaluable ({edetail})", node=gi.node)
+        else:
+            rep.add("SYSTEMATIC", gi, "get_information_and_parity_sets evaluated for left / right / sorted / unsorted index lists", est, edetail, node=gi.node)
+    else:
+        rep.ok("SYSTEMATIC", gi, "left: (0..k-1 | k..n-1); right: (n-k..n-1 | 0..n-k-1); list: parity = ascending complement", "information and parity sets partition the positions", node=gi.node)
     return 4
 
 
